@@ -21,14 +21,18 @@ for _p in sorted(glob.glob(os.path.join(_HERE, "fam_*.py"))):
         _tree = ast.parse(open(_p).read())
     except SyntaxError:
         continue
-    _vals = {}
+    _vals, _ns = {}, {}
     for _n in _tree.body:
-        if isinstance(_n, ast.Assign) and len(_n.targets) == 1 and isinstance(_n.targets[0], ast.Name) \
-                and _n.targets[0].id in ("PROPS", "MANIFEST", "ENGINE", "LEVEL", "TECH", "ALSO"):
+        # top-level NAME = <expression over literals and earlier top-level names> (no calls into modules)
+        if isinstance(_n, ast.Assign) and len(_n.targets) == 1 and isinstance(_n.targets[0], ast.Name):
             try:
-                _vals[_n.targets[0].id] = ast.literal_eval(_n.value)
+                _v = eval(compile(ast.Expression(_n.value), _p, "eval"),
+                          {"__builtins__": {"dict": dict, "list": list, "len": len, "str": str, "range": range}}, _ns)
             except Exception:
-                pass
+                continue
+            _ns[_n.targets[0].id] = _v
+            if _n.targets[0].id in ("PROPS", "MANIFEST", "ENGINE", "LEVEL", "TECH", "ALSO"):
+                _vals[_n.targets[0].id] = _v
     if "PROPS" not in _vals:
         continue
     FAMILIES[_name] = list(_vals["PROPS"])
